@@ -3482,4 +3482,287 @@ theorem evalNode_frame (env : SpecEnv) (fuel : Nat) : NodeFrame env fuel := by
       simp only [Bool.false_eq_true, if_false, R.ok.injEq] at hX hY
       rw [← hX, ← hY]; exact nilCase
 
+
+/-! ### swapping two independent edges -/
+
+theorem perm_flatMap_cons {β γ : Type} (l : List β) (g : β → γ) (h : β → List γ) :
+    (l.flatMap fun y => g y :: h y).Perm (l.map g ++ l.flatMap h) := by
+  induction l with
+  | nil => exact List.Perm.refl _
+  | cons y l ih =>
+    simp only [List.flatMap_cons, List.map_cons, List.cons_append]
+    refine List.Perm.cons _ ?_
+    exact (List.Perm.append_left _ ih).trans (List.perm_append_comm_assoc _ _ _)
+
+/-- Exchanging two nested loops permutes the results. -/
+theorem flatMap_map_swap {α β γ : Type} (l1 : List α) (l2 : List β) (f : α → β → γ) :
+    (l2.flatMap fun y => l1.map fun x => f x y).Perm (l1.flatMap fun x => l2.map fun y => f x y) := by
+  induction l1 with
+  | nil =>
+    simp only [List.map_nil, List.flatMap_nil]
+    induction l2 with
+    | nil => exact List.Perm.refl _
+    | cons y l2 ih => simp
+  | cons x l1 ih =>
+    simp only [List.map_cons, List.flatMap_cons]
+    exact (perm_flatMap_cons l2 (fun y => f x y) (fun y => l1.map fun x => f x y)).trans
+      (List.Perm.append_left _ ih)
+
+theorem map_ext_inj (a : Asg) {Δ Δ' : List Asg} (h : Δ.map (ext a) = Δ'.map (ext a)) : Δ = Δ' := by
+  induction Δ generalizing Δ' with
+  | nil => cases Δ' with
+    | nil => rfl
+    | cons _ _ => simp at h
+  | cons δ Δ ih =>
+    cases Δ' with
+    | nil => simp at h
+    | cons δ' Δ' =>
+      simp only [List.map_cons, List.cons.injEq] at h
+      rw [ext_inj a h.1, ih h.2]
+
+theorem lookupTag_none_of_not_mem {t : List (Name × Tagged)} {n : Name} (h : n ∉ t.map (·.1)) :
+    lookupTag t n = none := by
+  cases hl : lookupTag t n with
+  | none => rfl
+  | some x => exact absurd (lookupTag_some_mem hl) h
+
+/-- An extension that binds none of the tags in `U` is invisible to a subtree reading only `U`. -/
+theorem agree_of_ext {U : List Name} (a δ : Asg) (h : ∀ n ∈ U, n ∉ tagKeys δ) : Agree U a (ext a δ) := by
+  intro n hn
+  rw [tag?_ext, lookupTag_none_of_not_mem (h n hn)]
+  simp
+
+theorem Agree.refl (U : List Name) (a : Asg) : Agree U a a := fun _ _ => rfl
+
+theorem fieldTagUses_edge (nm : Name) (ps : Params) (k : Kind) (c : QNode) :
+    fieldTagUses (.edge nm ps k c) = kindTagUses k ++ tagUses c := by
+  simp [fieldTagUses, tagUsesFields]
+
+theorem fieldTagDefs_edge (nm : Name) (ps : Params) (k : Kind) (c : QNode) :
+    fieldTagDefs (.edge nm ps k c) = edgeTagDefs k c := by
+  rw [fieldTagDefs, tagDefsFields_edge]; simp [tagDefsFields]
+
+theorem outNamesFields_single_edge (nm : Name) (ps : Params) (k : Kind) (c : QNode) :
+    outNamesFields [.edge nm ps k c] = kindOutNames k ++ outNames c := by
+  rw [outNamesFields_edge]; simp [outNamesFields]
+
+theorem flatMap_congr_mem {α β : Type} {l : List α} {f g : α → List β} (h : ∀ x ∈ l, f x = g x) :
+    l.flatMap f = l.flatMap g := by
+  induction l with
+  | nil => rfl
+  | cons x l ih =>
+    simp only [List.flatMap_cons, h x (by simp), ih (fun y hy => h y (by simp [hy]))]
+
+theorem Forall₂.flatMap_self {α γ δ : Type} {Q : γ → δ → Prop} (l : List α) {f : α → List γ}
+    {g : α → List δ} (h : ∀ x ∈ l, Forall₂ Q (f x) (g x)) : Forall₂ Q (l.flatMap f) (l.flatMap g) := by
+  induction l with
+  | nil => exact .nil
+  | cons x l ih =>
+    simp only [List.flatMap_cons]
+    exact (h x (by simp)).append (ih fun y hy => h y (by simp [hy]))
+
+/-- One edge after the other, from one assignment, when the two are independent: the result is the
+"product" of their separate extensions. -/
+theorem two_edges_product (env : SpecEnv) (fuel : Nat) (owners : List Name) (v : Option VertexId)
+    (nm1 nm2 : Name) (ps1 ps2 : Params) (k1 k2 : Kind) (c1 c2 : QNode) (a : Asg)
+    (hdis : ∀ n ∈ kindTagUses k2 ++ tagUses c2, n ∉ edgeTagDefs k1 c1)
+    (Δ1 Δ2 : List Asg)
+    (h1 : evalEdge env fuel owners nm1 ps1 k1 c1 v a = .ok (Δ1.map (ext a)))
+    (hb1 : Bounded (edgeTagDefs k1 c1) (kindOutNames k1 ++ outNames c1) Δ1)
+    (h2 : evalEdge env fuel owners nm2 ps2 k2 c2 v a = .ok (Δ2.map (ext a)))
+    (X : List Asg)
+    (hX : evalFields env fuel owners [.edge nm1 ps1 k1 c1, .edge nm2 ps2 k2 c2] v [a] = .ok X) :
+    X = Δ1.flatMap fun δ1 => Δ2.map fun δ2 => ext (ext a δ1) δ2 := by
+  obtain ⟨Y, hY, hX2⟩ := evalFields_cons_ok.mp hX
+  rw [evalFields_single_edge_single, h1] at hY
+  cases hY
+  rw [evalFields_single_edge] at hX2
+  obtain ⟨hall, rfl⟩ := flatMapR_ok hX2
+  rw [List.flatMap_map]
+  apply flatMap_congr_mem
+  intro δ1 hδ1
+  have hz := hall (ext a δ1) (List.mem_map.mpr ⟨δ1, hδ1, rfl⟩)
+  have hAg : Agree (kindTagUses k2 ++ tagUses c2) a (ext a δ1) :=
+    agree_of_ext a δ1 (fun n hn hk => hdis n hn ((hb1 δ1 hδ1).1 n hk))
+  obtain ⟨Δ', e1, e2, _⟩ := evalEdge_frame_of (evalNode_frame env fuel) owners nm2 ps2 k2 c2 v a (ext a δ1) hAg
+    _ _ h2 hz
+  have := map_ext_inj a e1
+  subst this
+  exact e2
+
+theorem swapEdges_core (env : SpecEnv) (fuel : Nat) (owners : List Name) (v : Option VertexId)
+    (E1 E2 : QField) (hok : swapEdgesOK E1 E2 = true) (a : Asg) (X0 X1 : List Asg)
+    (h0 : evalFields env fuel owners [E2, E1] v [a] = .ok X0)
+    (h1 : evalFields env fuel owners [E1, E2] v [a] = .ok X1) : PermE X0 X1 := by
+  cases E1 with
+  | prop nm dirs => simp [swapEdgesOK, isProp] at hok
+  | edge nm1 ps1 k1 c1 =>
+    cases E2 with
+    | prop nm dirs => simp [swapEdgesOK, isProp] at hok
+    | edge nm2 ps2 k2 c2 =>
+      simp only [swapEdgesOK, isProp, Bool.not_false, Bool.true_and, Bool.and_eq_true, independent,
+        disjoint_iff, fieldTagUses_edge, fieldTagDefs_edge, outNamesFields_single_edge] at hok
+      obtain ⟨⟨⟨hd12, hd21⟩, hdd⟩, hoo⟩ := hok
+      -- both edges succeed on `a`
+      obtain ⟨Y1, hY1, _⟩ := evalFields_cons_ok.mp h1
+      obtain ⟨Y2, hY2, _⟩ := evalFields_cons_ok.mp h0
+      rw [evalFields_single_edge_single] at hY1 hY2
+      obtain ⟨Δ1, e1, _, b1⟩ := evalEdge_frame_of (evalNode_frame env fuel) owners nm1 ps1 k1 c1 v a a
+        (Agree.refl _ a) _ _ hY1 hY1
+      obtain ⟨Δ2, e2, _, b2⟩ := evalEdge_frame_of (evalNode_frame env fuel) owners nm2 ps2 k2 c2 v a a
+        (Agree.refl _ a) _ _ hY2 hY2
+      subst e1; subst e2
+      have p1 := two_edges_product env fuel owners v nm1 nm2 ps1 ps2 k1 k2 c1 c2 a
+        (fun n hn hk => hd12 n hk hn) Δ1 Δ2 hY1 b1 hY2 X1 h1
+      have p0 := two_edges_product env fuel owners v nm2 nm1 ps2 ps1 k2 k1 c2 c1 a
+        (fun n hn hk => hd21 n hk hn) Δ2 Δ1 hY2 b2 hY1 X0 h0
+      subst p1; subst p0
+      refine ⟨Δ1.flatMap fun δ1 => Δ2.map fun δ2 => ext (ext a δ2) δ1,
+        flatMap_map_swap Δ1 Δ2 (fun δ1 δ2 => ext (ext a δ2) δ1), ?_⟩
+      apply Forall₂.flatMap_self
+      intro δ1 hm
+      apply Forall₂.of_map
+      intro δ2 hδ2
+      apply AsgEq.ext_comm
+      · intro x hx hx'
+        exact hdd x ((b1 δ1 hm).1 x hx') ((b2 δ2 hδ2).1 x hx)
+      · intro x hx hx'
+        exact hoo x ((b1 δ1 hm).2 x hx') ((b2 δ2 hδ2).2 x hx)
+
+
+theorem PermE.nil : PermE [] [] := ⟨[], List.Perm.refl _, .nil⟩
+
+theorem PermE.flatMap_family (as : List Asg) (f g : Asg → List Asg)
+    (h : ∀ a ∈ as, PermE (f a) (g a)) : PermE (as.flatMap f) (as.flatMap g) := by
+  induction as with
+  | nil => exact PermE.nil
+  | cons a as ih =>
+    simp only [List.flatMap_cons]
+    exact (h a (by simp)).append (ih fun b hb => h b (by simp [hb]))
+
+theorem swapEdgesOK_not_prop {f g : QField} (h : swapEdgesOK f g = true) :
+    isProp f = false ∧ isProp g = false := by
+  simp only [swapEdgesOK, Bool.and_eq_true, Bool.not_eq_true'] at h
+  exact ⟨h.1.1.1, h.1.1.2⟩
+
+theorem swapEdges_local (env : SpecEnv) (j : Nat) (t : QNode) (E1 E2 : QField)
+    (hf : (fieldsOf t)[j]? = some E1) (hg : (fieldsOf t)[j + 1]? = some E2)
+    (hok : swapEdgesOK E1 E2 = true) (fuel : Nat) (v : Option VertexId) (a : Asg) :
+    RelR permRel (fun i => evalNode env fuel (pick (swapAtF j) id i t) v a) := by
+  intro L hL
+  have h0 := hL false
+  have h1 := hL true
+  simp only [pick, id] at h0 h1
+  show PermE (L false) (L true)
+  generalize L false = l0 at h0 ⊢
+  generalize L true = l1 at h1 ⊢
+  obtain ⟨ct, fields⟩ := t
+  simp only [fieldsOf] at hf hg
+  obtain ⟨pre, post, e1, e2⟩ := swapAdj_spec j fields E1 E2 hf hg
+  obtain ⟨np1, np2⟩ := swapEdgesOK_not_prop hok
+  cases fuel with
+  | zero => simp [evalNode_zero] at h1
+  | succ fuel =>
+    simp only [swapAtF, e2, evalNode_succ, afterFilters_eq_gate] at h0
+    simp only [e1, evalNode_succ, afterFilters_eq_gate] at h1
+    have hB : ∀ b, bindProps env v (pre ++ E2 :: E1 :: post) b = bindProps env v (pre ++ E1 :: E2 :: post) b := by
+      intro b
+      simp only [bindProps_append, bindProps_edge_like env v _ np1, bindProps_edge_like env v _ np2]
+    have hP : ∀ b, propFiltersHold env b v (pre ++ E2 :: E1 :: post) =
+        propFiltersHold env b v (pre ++ E1 :: E2 :: post) := by
+      intro b
+      simp only [propFiltersHold_append, propFiltersHold_edge_like env v _ np1,
+        propFiltersHold_edge_like env v _ np2]
+    rw [hB, hP] at h0
+    by_cases hco : coercionOk env ct v = true
+    · simp only [hco, if_true] at h0 h1
+      cases hp : propFiltersHold env (bindProps env v (pre ++ E1 :: E2 :: post) a) v (pre ++ E1 :: E2 :: post) with
+      | ok ok =>
+        rw [hp] at h0 h1
+        cases ok with
+        | false =>
+          simp only [gate, R.ok.injEq] at h0 h1
+          rw [← h0, ← h1]; exact PermE.nil
+        | true =>
+          simp only [gate] at h0 h1
+          rw [evalFields_append] at h0 h1
+          cases hpre : evalFields env fuel (ownersOf env v) pre v [bindProps env v (pre ++ E1 :: E2 :: post) a] with
+          | ok as0 =>
+            rw [hpre] at h0 h1
+            have h0' : evalFields env fuel (ownersOf env v) ([E2, E1] ++ post) v as0 = .ok l0 := h0
+            have h1' : evalFields env fuel (ownersOf env v) ([E1, E2] ++ post) v as0 = .ok l1 := h1
+            rw [evalFields_append] at h0' h1'
+            cases hm0 : evalFields env fuel (ownersOf env v) [E2, E1] v as0 with
+            | ok M0 =>
+              cases hm1 : evalFields env fuel (ownersOf env v) [E1, E2] v as0 with
+              | ok M1 =>
+                rw [hm0] at h0'
+                rw [hm1] at h1'
+                obtain ⟨s0, rfl⟩ := evalFields_ok_flatMap hm0
+                obtain ⟨s1, rfl⟩ := evalFields_ok_flatMap hm1
+                have hM : PermE (as0.flatMap (contOf env fuel (ownersOf env v) [E2, E1] v))
+                    (as0.flatMap (contOf env fuel (ownersOf env v) [E1, E2] v)) := by
+                  apply PermE.flatMap_family
+                  intro b hb
+                  exact swapEdges_core env fuel (ownersOf env v) v E1 E2 hok b _ _ (s0 b hb) (s1 b hb)
+                rw [(evalFields_ok_flatMap h0').2, (evalFields_ok_flatMap h1').2]
+                exact permRel.flatMap (fun x y hxy => contOf_resp env fuel (ownersOf env v) post v x y hxy)
+                  (F := pick _ _) hM
+              | panic s => rw [hm1] at h1'; cases h1'
+              | fuel => rw [hm1] at h1'; cases h1'
+            | panic s => rw [hm0] at h0'; cases h0'
+            | fuel => rw [hm0] at h0'; cases h0'
+          | panic s => rw [hpre] at h1; cases h1
+          | fuel => rw [hpre] at h1; cases h1
+      | panic s => rw [hp] at h1; simp [gate] at h1
+      | fuel => rw [hp] at h1; simp [gate] at h1
+    · simp only [hco] at h0 h1
+      cases h0; cases h1; exact PermE.nil
+
+theorem asgs_swapEdges (env : SpecEnv) (q : Query) (p : Path) (j : Nat) (E1 E2 : QField)
+    (hp : NoFoldPath p q.root) (hf : fieldAt p j q.root = some E1)
+    (hg : fieldAt p (j + 1) q.root = some E2) (hok : swapEdgesOK E1 E2 = true)
+    (as as' : List Asg) (h : asgs env q = .ok as) (h' : asgs env (swapSiblings p j q) = .ok as') :
+    PermE as' as := by
+  obtain ⟨t, hdesc⟩ := noFold_descend hp
+  have hft : (fieldsOf t)[j]? = some E1 := by simpa [fieldAt, descend_fieldAt hdesc] using hf
+  have hgt : (fieldsOf t)[j + 1]? = some E2 := by simpa [fieldAt, descend_fieldAt hdesc] using hg
+  have := RelR_asgs permRel env false (fun fuel owners rest v => f2Rel_good env fuel owners rest v)
+    (pick (swapAtF j) id) p q t hdesc
+    (fun fuel v a _ => swapEdges_local env j t E1 E2 hft hgt hok fuel v a) (pick as' as)
+  apply this
+  intro i
+  cases i with
+  | false => exact h'
+  | true => simpa [pick, onQuery_modNode_id] using h
+
+/-! ### rows after a swap -/
+
+theorem rowOf_perm_of_asgEq {a b : Asg} (h : AsgEq a b) : (rowOf a).Perm (rowOf b) :=
+  (sortRow_perm a.outs).trans (h.perm.trans (sortRow_perm b.outs).symm)
+
+/-- Rows after swapping a property with its neighbour: same rows in the same order, each row the same
+multiset of `(name, value)` pairs. -/
+theorem rows_swapProps (env : SpecEnv) (q : Query) (p : Path) (j : Nat) (f g : QField)
+    (hp : NoFoldPath p q.root) (hf : fieldAt p j q.root = some f)
+    (hg : fieldAt p (j + 1) q.root = some g) (hok : swapPropsOK f g = true)
+    (rs rs' : List Row) (h : rows env q = .ok rs) (h' : rows env (swapSiblings p j q) = .ok rs') :
+    Forall₂ (fun r' r => r'.Perm r) rs' rs := by
+  obtain ⟨as, has, rfl⟩ := rows_ok.mp h
+  obtain ⟨as', has', rfl⟩ := rows_ok.mp h'
+  exact (asgs_swapProps env q p j f g hp hf hg hok as as' has has').map
+    (fun a b hab => rowOf_perm_of_asgEq hab)
+
+/-- Rows after swapping two independent edges: a permutation of the rows, up to the order of the
+`(name, value)` pairs inside a row. -/
+theorem rows_swapEdges (env : SpecEnv) (q : Query) (p : Path) (j : Nat) (E1 E2 : QField)
+    (hp : NoFoldPath p q.root) (hf : fieldAt p j q.root = some E1)
+    (hg : fieldAt p (j + 1) q.root = some E2) (hok : swapEdgesOK E1 E2 = true)
+    (rs rs' : List Row) (h : rows env q = .ok rs) (h' : rows env (swapSiblings p j q) = .ok rs') :
+    ∃ rs'', rs'.Perm rs'' ∧ Forall₂ (fun r' r => r'.Perm r) rs'' rs := by
+  obtain ⟨as, has, rfl⟩ := rows_ok.mp h
+  obtain ⟨as', has', rfl⟩ := rows_ok.mp h'
+  obtain ⟨l, hl, hf2⟩ := asgs_swapEdges env q p j E1 E2 hp hf hg hok as as' has has'
+  exact ⟨l.map rowOf, hl.map rowOf, hf2.map (fun a b hab => rowOf_perm_of_asgEq hab)⟩
+
 end TF.SpecMeta
